@@ -149,3 +149,43 @@ def idealShim (enc : Nat → Bytes → Bytes) (sent : Nat → Option Bytes) (len
 def toyEnc (mac : Nat) (_seq : Nat) (pd : Bytes) : Bytes := be32 pd.length ++ pd ++ List.replicate mac 0
 
 end AsyncsshModel.Transport
+
+namespace AsyncsshModel.Transport
+open AsyncsshModel
+
+/-- RFC 4253 §6 reference decoder for one cleartext frame
+    `uint32 packet_length ‖ byte padding_length ‖ payload ‖ random padding`, written from the RFC text (not from
+    the code).  `hdrlen = 5` when the length field counts towards the block alignment, `1` for the
+    encrypt-then-MAC / AEAD layouts where it does not. -/
+def rfcDecode (bs hdrlen : Nat) (frame : Bytes) : Except String Bytes :=
+  if frame.length < 5 then .error "short"
+  else
+    let len := beNat (frame.take 4)
+    if len + 4 ≠ frame.length then .error "length-field"
+    else
+      let padlen := (frame.getD 4 0).toNat
+      if padlen < 4 then .error "padding<4"
+      else if len < padlen + 1 then .error "padding>packet"
+      else if (hdrlen - 1 + len) % (max 8 bs) ≠ 0 then .error "alignment"
+      else .ok ((frame.drop 5).take (len - padlen - 1))
+
+/-- `Kex.compute_key` (asyncssh/kex.py): `while len(key) < keylen: key += H(k + h + (key if key else x + sid))` -/
+def ckLoop (H : Bytes → Bytes) (k h x sid : Bytes) (keylen : Nat) : Nat → Bytes → Bytes
+  | 0, key => key
+  | fuel + 1, key =>
+    if key.length < keylen then
+      ckLoop H k h x sid keylen fuel (key ++ H (k ++ h ++ (if key.isEmpty then x ++ sid else key)))
+    else key
+
+def computeKey (H : Bytes → Bytes) (k h x sid : Bytes) (keylen : Nat) : Bytes :=
+  (ckLoop H k h x sid keylen keylen []).take keylen
+
+/-- RFC 4253 §7.2: `K1 = HASH(K ‖ H ‖ X ‖ session_id)`, `K(n+1) = HASH(K ‖ H ‖ K1 ‖ … ‖ Kn)`;
+    `rfcStream n = K1 ‖ … ‖ Kn` -/
+def rfcStream (H : Bytes → Bytes) (k h x sid : Bytes) : Nat → Bytes
+  | 0 => []
+  | n + 1 =>
+    let prev := rfcStream H k h x sid n
+    prev ++ H (k ++ h ++ (if n = 0 then x ++ sid else prev))
+
+end AsyncsshModel.Transport
